@@ -1,4 +1,5 @@
 import BbRe.Lemmas.BuildClientFrame
+import BbRe.Lemmas.BuildClientBound
 /-!
 # C08 — worker: one action at a time, honest state, safe shutdown
 
@@ -198,6 +199,30 @@ theorem shutdown_keeps_synchronizing (s : State) (t : Nat) (hpc : s.pc = .top)
   split
   · exact Or.inl ⟨_, rfl⟩
   · exact Or.inr ⟨_, rfl⟩
+
+/-- The may-think bound is at most one minute after the latest synchronization
+time the scheduler ever announced (`maxSync`, ghost). -/
+theorem maythink_bounded (t0 : Nat) (evs : List Ev) (t : Nat)
+    (h : (run (init t0) evs).mayThink = some t) : t ≤ (run (init t0) evs).maxSync + 60 :=
+  (bound_reachable t0 evs).2 t h
+
+/-- Hence shutdown cannot be held up for ever: once the clock is more than a
+minute past the latest announced synchronization time, the next `Run` under
+shutdown returns `mayTerminate` and the thread ends — whatever the scheduler and
+the executor did before. -/
+theorem shutdown_terminates_after_bound (t0 : Nat) (evs : List Ev)
+    (hpc : (run (init t0) evs).pc = .top) (hc : (run (init t0) evs).cancelled = true)
+    (hn : (run (init t0) evs).now > (run (init t0) evs).maxSync + 60) :
+    ∃ s', runBegin (run (init t0) evs) = some s' ∧ s'.pc = .terminated := by
+  have hb := bound_reachable t0 evs
+  generalize run (init t0) evs = s at *
+  refine ⟨retRun s true false, ?_, by simp [retRun, hc]⟩
+  cases hm : s.mayThink with
+  | none => simp [runBegin, hpc, hc, hm]
+  | some t =>
+    have := hb.2 t hm
+    have : s.now > t := by omega
+    simp [runBegin, hpc, hc, hm, this]
 
 example : (run (init 1000) demo).pc = .terminated := by decide
 
